@@ -417,6 +417,9 @@ def into_data(val: Convertible, ty: t.Optional[IntoConverter] = None, *,
             if ty is type(val) and type(val) in _ScalarType:
                 # a scalar data interchange type (whose custom converter brings no serializer): data already
                 return val
+            if ty is type(val) and custom is not None:
+                # the custom converter for this very type brings no serializer: the built-in one writes it
+                return into_data(val, ty)
             assert ty is not type(val)
             return into_data(val, None, custom=custom)
     except (TypeError, AssertionError):
